@@ -137,11 +137,16 @@ def exec (step : T → Action T V E) (r : Runtime T V E) (th : Thread T E) :
   | .stop t => ({ r with trace := r.trace ++ [⟨th.id, .stop⟩] }, { th with st := t, done := true })
   | .error e t => ({ r with trace := r.trace ++ [⟨th.id, .error e⟩] }, { th with st := t, err := some e })
 
-/-- `Runtime::finish_thread_turn`: a finished main thread is parked and reported at once; a finished
-    task is dropped; anything else goes to the back of the run queue. -/
+/-- a thread that `finish_thread_turn` does not put back: finished, or — for a task — stopped with a runtime
+    error (fix 39422dd, D113: a failed task is released like a finished one; a failed MAIN thread stays queued
+    and is what `MainThreadError` reports) -/
+def Thread.gone (t : Thread T E) : Bool := t.done || (!t.isMain && t.err.isSome)
+
+/-- `Runtime::finish_thread_turn`: a finished main thread is parked and reported at once; a finished or
+    failed task is dropped; anything else goes to the back of the run queue. -/
 def finishThreadTurn (r : Runtime T V E) (th : Thread T E) : Runtime T V E × Bool :=
   if th.isMain && th.done then ({ r with finishedMain := some th }, true)
-  else if !th.isMain && th.done then (r, false)
+  else if !th.isMain && (th.done || th.err.isSome) then (r, false)
   else ({ r with runQueue := r.runQueue ++ [th] }, false)
 
 /-- `Runtime::drain_new_threads` over the queued threads `ts` (the rest stays queued on early return) -/
